@@ -41,7 +41,7 @@ let () =
         let model = List [Atom "ok"; of_list of_str (M.c06_model dfc c)] in
         List [model;
               of_bool (M.c06_in_domain c);
-              of_list of_bool (M.c06_classes c);
+              of_list of_bool (M.c06_classes dfc c);
               of_list of_str (M.c06_spec c);
               of_list (fun o -> of_bool (M.c06_oracle c o)) obs;
               of_list (fun (it : M.item) -> of_list (fun g -> of_str (M.c06_group_string g)) it.M.it_attrs) c.M.c_items;
